@@ -252,10 +252,10 @@ CASE_LIMIT_S = 60   # a single case (on real sockets: a query that waits for eve
 
 class _Watched:
     def __init__(self):
-        self.returncode, self.stdout, self.stderr, self.stalled = None, "", "", False
+        self.returncode, self.stdout, self.stderr, self.stalled, self.over_budget = None, "", "", False, False
 
 
-def _run_watched(cmd, text_in, progress_file):
+def _run_watched(cmd, text_in, progress_file, deadline=None):
     """run the worker; kill it when the case it is on (last `B <id>` line of the progress file) has not ended within
     CASE_LIMIT_S seconds — the caller reports that case as HANG and runs the rest in a new worker"""
     import threading, time
@@ -283,11 +283,16 @@ def _run_watched(cmd, text_in, progress_file):
             proc.kill()
             t.join(10)
             break
+        if deadline is not None and time.time() > deadline:
+            res.over_budget = True
+            proc.kill()
+            t.join(10)
+            break
     res.returncode = proc.returncode if proc.returncode is not None else -9
     return res
 
 
-def run_impl(lines, tag="h"):
+def run_impl(lines, tag="h", budget_s=None):
     """Run the real code on the case lines. Survives aborts: the case that killed the worker is
     reported as `ABORT` and the rest are re-run in a new worker.
     Returns (dict id -> outcome text, dict id -> panic message)."""
@@ -295,11 +300,14 @@ def run_impl(lines, tag="h"):
     todo = list(lines)
     rounds = 0
     stalls = 0
+    import time as _time
+    t_start = _time.time()
     while todo:
         rounds += 1
         prog = os.path.join(WORK, f"progress_{tag}_{os.getpid()}")
         plog = os.path.join(WORK, f"panics_{tag}_{os.getpid()}")
-        p = _run_watched([GDHARNESS, "run", "--progress", prog, "--panic-log", plog], "\n".join(todo) + "\n", prog)
+        p = _run_watched([GDHARNESS, "run", "--progress", prog, "--panic-log", plog], "\n".join(todo) + "\n", prog,
+                         deadline=(t_start + budget_s) if budget_s else None)
         got = {}
         for l in p.stdout.split("\n"):
             if l:
@@ -312,6 +320,13 @@ def run_impl(lines, tag="h"):
                 panics[i] = rest
         ids = [l.split(" ", 1)[0] for l in todo]
         if p.returncode == 0 and all(i in got for i in ids):
+            break
+        if p.over_budget:
+            # the batch as a whole took longer than the caller allows (real sockets: every wait had become longer): the cases
+            # that were not reached are marked, the caller reports the overrun
+            for i in ids:
+                out.setdefault(i, "NOT-RUN time budget of the batch used up")
+            panics["<budget>"] = f"the batch did not end within {budget_s} s"
             break
         # worker died: find the case it was on
         begun = [l.strip()[2:] for l in open(prog)] if os.path.exists(prog) else []
